@@ -548,6 +548,10 @@ func (r *RowCache) uuidsByConditionsAsIndexes(conditions []ovsdb.Condition, nati
 		}
 		keys := []interface{}{}
 		if v.Kind() == reflect.Map && condition.Function == ovsdb.ConditionIncludes {
+			// every map includes the empty one
+			if v.Len() == 0 {
+				return nil
+			}
 			for _, key := range v.MapKeys() {
 				keys = append(keys, key.Interface())
 			}
